@@ -25,6 +25,32 @@ KEEP = {  # std methods that keep the unit of their receiver
 }
 SAME = {"cmp", "partial_cmp", "min", "max", "eq", "ne", "lt", "le", "gt", "ge", "abs_diff", "checked_sub",
         "checked_add", "saturating_sub", "saturating_add", "wrapping_sub", "wrapping_add", "clamp", "store"}
+KEYED = {"contains", "set", "insert", "put", "remove", "toggle", "contains_key"}   # key-addressed access methods
+_SUMMARY = {}
+_IN_PROGRESS = set()
+
+
+def key_summary(F, did):
+    """for a local function: parameter position -> unit of the keys it uses with that (collection) parameter"""
+    if did in _SUMMARY:
+        return _SUMMARY[did]
+    if did in _IN_PROGRESS or did not in F.hir:
+        return {}
+    _IN_PROGRESS.add(did)
+    try:
+        u = Units(F, did, lambda *a, **k: None)
+        try:
+            u.run()
+        except RecursionError:
+            pass
+        names = H.param_names(F.hir[did])
+        out = {i: u.midx[n] for i, n in enumerate(names) if n and n in u.midx}
+    finally:
+        _IN_PROGRESS.discard(did)
+    _SUMMARY[did] = out
+    return out
+
+
 CLOSURE_ELEM = {"map", "for_each", "filter", "all", "any", "find", "position", "filter_map", "flat_map",
                 "take_while", "skip_while", "inspect", "is_sorted_by_key", "max_by_key", "min_by_key"}
 
@@ -93,6 +119,7 @@ class Units:
         self.nchecked = 0
         self.idx = {}     # collection local -> unit of its index domain
         self.clos = {}    # let-bound closure -> units of its parameters
+        self.midx = {}    # keyed collection (bit set, map) local -> unit of the keys used with contains/set/insert/...
 
     # ---- backward inference for closure parameters ------------------------------
     def infer_closure_params(self, cl, env):
@@ -456,6 +483,16 @@ class Units:
             return None
         sig = self.sig_of(e)
         self.args_vs_sig(e, sig, units, 0)
+        did = f.get("did")
+        if did and did != self.fid and did in self.F.hir and did.split("::")[0] == self.fid.split("::")[0]:
+            summ = key_summary(self.F, did)
+            for i, a in enumerate(e["a"]):
+                c = H.root_local(a)
+                if c and i in summ:
+                    mine = self.midx.get(c) or self.idx.get(c)
+                    if mine and isinstance(mine, str):
+                        self.mix("keys of `%s` (filled per %s here, read per %s in %s)" % (c, mine, summ[i], did.rsplit("::", 2)[-1]),
+                                 mine, summ[i], e)
         if sig:
             return unit_of_hty(sig["rty"])
         n = f.get("n", "")
@@ -485,6 +522,13 @@ class Units:
                 units.append(self.ex(a, env))
         sig = self.sig_of(e)
         plain = [u if not isinstance(u, tuple) else None for u in units]
+        if name in KEYED and plain and isinstance(plain[0], str) and plain[0][-1] not in "#~" and plain[0][0] != "@":
+            c = H.root_local(e["r"])
+            if c:
+                prev = self.midx.get(c) or self.idx.get(c)
+                if prev and isinstance(prev, str):
+                    self.mix("key of `%s` (elsewhere addressed by %s)" % (c, prev), prev, plain[0], e)
+                self.midx.setdefault(c, plain[0])
         if sig:
             self.args_vs_sig(e, sig, plain, 1)
             u = unit_of_hty(sig["rty"])
